@@ -1,0 +1,26 @@
+//go:build verif
+
+// Verification hooks (build tag "verif"). Add-only, used by the external verification harness
+// (C07). Nothing here is compiled into a normal build.
+
+package protocol
+
+import "net"
+
+// VerifSessionPolicy returns the user policy snapshot a server session carries (the policy of the
+// user record it was attributed to): the policy's user name and its quotas as (days, megabytes)
+// pairs. ok is false when the conn is not a session or carries no policy.
+func VerifSessionPolicy(conn net.Conn) (name string, quotas [][2]int32, ok bool) {
+	s, isSession := conn.(*Session)
+	if !isSession || s == nil {
+		return "", nil, false
+	}
+	policy := s.userPolicy.Load()
+	if policy == nil {
+		return "", nil, false
+	}
+	for _, q := range policy.Quotas() {
+		quotas = append(quotas, [2]int32{q.Days(), q.Megabytes()})
+	}
+	return policy.Name(), quotas, true
+}
